@@ -32,10 +32,10 @@ func fsmShouldApply(c *Ctx, rule string) {
 	fn := p.MustMethod(pkgConsensus, "fsmState", "shouldApply")
 	name := funcName(fn)
 	hook := symHook(map[string]string{
-		"P0@shouldApply.Index":          "sI",
-		"P1@shouldApply.Index":          "fI",
-		"P0@shouldApply.BalloonVersion": "sV",
-		"P1@shouldApply.BalloonVersion": "fV",
+		"P0@" + fn.Name() + ".Index":          "sI",
+		"P1@" + fn.Name() + ".Index":          "fI",
+		"P0@" + fn.Name() + ".BalloonVersion": "sV",
+		"P1@" + fn.Name() + ".BalloonVersion": "fV",
 	}, nil)
 	tb, ok := p.DecisionTable(fn, hook, nil)
 	if !ok {
@@ -180,7 +180,7 @@ func fsmApplyAdd(c *Ctx, rule string, applyAdd *ssa.Function) {
 		}
 		return tableName(p, t.Args[0]) == "FSMStateTable" && t.Args[1].Op == "global" && strings.HasSuffix(t.Args[1].Name, "FSMStateTableKey") &&
 			t.Args[2].Has(func(x *Term) bool {
-				return x.Op == "call" && x.Fn != nil && x.Fn.Name() == "encode" && x.Args[0].IsParam(applyAdd, stateI)
+				return isEncodeCall(x) && x.Args[0].IsParam(applyAdd, stateI)
 			})
 	})
 	c.Check(hasTree && hasState, rule, name+":one-batch", muts[0].in.Pos(), "single Mutate of (tree mutations + FSM state marker)", fmt.Sprintf("the batch written per entry contains tree mutations=%v, applied-index marker (FSMStateTable/FSMStateTableKey ← encode(state))=%v: %s", hasTree, hasState, mt))
@@ -189,7 +189,7 @@ func fsmApplyAdd(c *Ctx, rule string, applyAdd *ssa.Function) {
 	okMD := false
 	var prev, nw string
 	md.Has(func(t *Term) bool {
-		if t.Op == "call" && t.Fn != nil && t.Fn.Name() == "encode" && len(t.Args) == 1 {
+		if isEncodeCall(t) && len(t.Args) == 1 {
 			if al, ok := t.Args[0].V.(*ssa.Alloc); ok && namedIs(deref(al.Type()), pkgConsensus, "VersionMetadata") {
 				bf := p.AllocFields(t.Args[0])
 				if len(bf["PreviousVersion"]) == 1 && len(bf["NewVersion"]) == 1 {
@@ -220,7 +220,7 @@ func fsmApplyAdd(c *Ctx, rule string, applyAdd *ssa.Function) {
 	c.Check(okPub, rule, name+":publish-after-write", applyAdd.Pos(), "n.state = state after the successful write", "the in-memory FSM state is not advanced exactly once, after the store write, to the state that was persisted")
 	// failures abort (in applyAdd and in the helpers it delegates to)
 	for _, f := range rg.Funcs() {
-		failuresAbort(c, rule, f, "AddBulk", "Mutate", "encode")
+		failuresAbort(c, rule, f, "AddBulk", "Mutate", "encode", "encodeMsgPack")
 	}
 }
 
@@ -246,7 +246,7 @@ func failuresAbort(c *Ctx, rule string, fn *ssa.Function, callees ...string) {
 			a.Has(func(t *Term) bool {
 				if (t.Op == "call" || t.Op == "invoke") && src == "" {
 					for _, cn := range callees {
-						if t.Op == "invoke" && t.Name == cn || t.Fn != nil && t.Fn.Name() == cn {
+						if t.Op == "invoke" && t.Name == cn || t.Fn != nil && canonFuncName(t.Fn) == cn {
 							src = cn
 						}
 					}
@@ -556,6 +556,17 @@ func errorDiscipline(c *Ctx, rule string, fns []*ssa.Function) {
 				}
 				rv := RetVal(ret, len(ret.Results)-1)
 				if cst, ok := rv.(*ssa.Const); ok && cst.Value == nil {
+					// a return on the edge where the error equals a sentinel ("not found") is a decision, not a swallowed failure
+					evT := p.TermOf(ev).String()
+					if hasCond(p.CondsAt(rb), func(k Cond) bool {
+						if !k.Pol || k.Atom.Op != "EQ" {
+							return false
+						}
+						a, b := k.Atom.Args[0], k.Atom.Args[1]
+						return a.Op == "global" && b.String() == evT || b.Op == "global" && a.String() == evT
+					}) {
+						continue
+					}
 					bad++
 					c.Fail(rule, name+":swallowed", ret.Pos(), "on the failure edge of "+p.TermOf(ev).String()+" the function returns a nil error: the caller takes the operation for successful")
 				}
@@ -564,5 +575,65 @@ func errorDiscipline(c *Ctx, rule string, fns []*ssa.Function) {
 		if bad == 0 {
 			c.Ok(rule, name, fn.Pos(), "no discarded, stale or swallowed error")
 		}
+	}
+}
+
+// isRaftApplyCall / isRaftResponse: the command handed to raft and the FSM's answer to it, by role
+// (whether the node wraps them in a helper or not).
+func isRaftApplyCall(x *Term) bool {
+	return x.Op == "call" && x.Fn != nil && x.Fn.Name() == "Apply" && x.Fn.Signature.Recv() != nil && namedIs(x.Fn.Signature.Recv().Type(), "github.com/hashicorp/raft", "Raft")
+}
+
+func isRaftResponse(x *Term) bool {
+	return x.Op == "invoke" && x.Name == "Response" && len(x.Args) > 0 && x.Args[0].Has(isRaftApplyCall)
+}
+
+// isEncodeCall: the msgpack encoding of a value of package consensus — the type's own encode
+// method or the package's encoder applied to it (the methods are one-line wrappers of the latter).
+func isEncodeCall(x *Term) bool {
+	if x.Op != "call" || x.Fn == nil || x.Fn.Pkg == nil || x.Fn.Pkg.Pkg.Path() != modPkg(pkgConsensus) || len(x.Args) == 0 {
+		return false
+	}
+	n := canonFuncName(x.Fn)
+	return n == "encode" || n == "encodeMsgPack"
+}
+
+// fsmResponseChecked: the proposer looks at the FSM's verdict before it uses the FSM's value. Apply
+// answers {err, nil} for an entry it refuses (already applied: e.g. the first proposals on a node
+// restored from a backup, whose raft indexes start below the restored applied index); asserting
+// the concrete type of the nil value aborts the request instead of reporting the refusal.
+func fsmResponseChecked(c *Ctx, rule string) {
+	p := c.P
+	ab := p.MustMethod(pkgConsensus, "RaftNode", "AddBulk")
+	rg := p.RegionOf(ab, 2)
+	n := 0
+	rg.Instrs(func(site regionSite, in ssa.Instruction) {
+		ta, ok := in.(*ssa.TypeAssert)
+		if !ok || ta.CommaOk {
+			return
+		}
+		t := rg.Term(site, ta.X)
+		if !(t.IsField("val", nil) && t.Has(isRaftResponse)) {
+			return
+		}
+		n++
+		resp := t.Strip().Args[0].String()
+		cs := rg.Conds(regionInstr{site, in})
+		checked := hasCond(cs, func(k Cond) bool {
+			if k.Atom.Op != "EQ" || !k.Pol {
+				return false
+			}
+			for i := 0; i < 2; i++ {
+				x, y := k.Atom.Args[i], k.Atom.Args[1-i]
+				if y.Op == "const" && y.Name == "nil" && x.IsField("err", func(b *Term) bool { return b.String() == resp }) {
+					return true
+				}
+			}
+			return false
+		})
+		c.Check(checked, rule, funcName(ab)+":fsm-verdict", in.Pos(), "the FSM's error is tested before its value is used", "the value of the FSM's response is asserted to be a snapshot list without first testing the response's error: when the FSM refuses the entry (\"state already applied\") the value is nil and the assertion panics in the request's goroutine instead of returning the refusal")
+	})
+	if n == 0 {
+		c.Fail(rule, funcName(ab)+":fsm-verdict", ab.Pos(), "AddBulk does not take its result from the FSM's response value")
 	}
 }
